@@ -720,10 +720,12 @@ def _sub(c, a, b, alpha=None):
 def _mul(c, a, b):
     if z3.is_bool(a) and z3.is_bool(b):
         return z3.And(a, b)
-    if z3.is_bool(a):
-        return z3.If(a, to_real(b), z3.RealVal(0))
-    if z3.is_bool(b):
-        return z3.If(b, to_real(a), z3.RealVal(0))
+    if z3.is_bool(a) or z3.is_bool(b):
+        k, v = (a, b) if z3.is_bool(a) else (b, a)
+        if getattr(c, 'split_bool_casts', False) and not (z3.is_true(k) or z3.is_false(k)):
+            # case split instead of an If-term: one path per regime of a mask-weighted sum
+            return to_real(v) if c.decide(k, None) else z3.RealVal(0)
+        return z3.If(k, to_real(v), z3.RealVal(0))
     return to_real(a) * to_real(b)
 
 
